@@ -153,11 +153,13 @@ def r3_dump(ctx):
     store = ctx.prog.func(f'{N.GENERIC}.Generic.store')
     doc, path, opt = store.params[1:4]
     writes = []
+    ok = True
     for sp in symex.func_sym_paths(store):
         for e in sp.events:
             if e.kind == 'expr' and isinstance(e.expr, ast.Call) and src(e.expr.func) == '_write':
                 writes.append(src(e.expr))
-    ok = writes == [f'_write({path}, cls.export({doc}, {opt}))']
+                ok = ok and F.same(ctx, store, e.expr, f'_write({path}, cls.export({doc}, {opt}))')
+    ok = ok and len(writes) == 1
     ctx.check(ok, 'R3', store.loc, store.qualname, 'store-writes-export',
               'Generic.store writes exactly Generic.export(document, options) to the path', f'Generic.store does {writes}')
     b = ctx.prog.resolve(store.module, '_write')
@@ -172,11 +174,10 @@ def r3_dump(ctx):
         ws = [e for e in sp.events if e.kind == 'expr' and isinstance(e.expr, ast.Call) and isinstance(e.expr.func, ast.Attribute)
               and e.expr.func.attr == 'write']
         opens = [e for e in sp.events if e.kind == 'with' and isinstance(e.expr, ast.Call) and F.is_name(e.expr.func, 'open')]
-        okw = okw and len(ws) == 1 and len(ws[0].expr.args) == 1 and src(ws[0].expr.args[0]) == content and len(opens) == 1 \
-            and src(opens[0].expr.args[0]) == pth
+        okw = okw and len(ws) == 1 and len(ws[0].expr.args) == 1 and src(ws[0].expr.args[0]) == content and len(opens) == 1
         if opens:
-            mode = opens[0].expr.args[1].value if len(opens[0].expr.args) > 1 and isinstance(opens[0].expr.args[1], ast.Constant) else ''
-            okw = okw and mode in ('w', 'w+', 'wt')
+            file_, mode, _ = F.open_args(opens[0].expr)
+            okw = okw and file_ is not None and src(file_) == pth and mode in ('w', 'w+', 'wt')
     ctx.check(okw, 'R3', w.loc, w.qualname, 'write-once', '_write opens the path for writing and writes the content exactly once')
     mk = [n for n in walk_local(w.node) if isinstance(n, ast.Call) and src(n.func) in ('os.makedirs', 'Path.mkdir')]
     opn = [n for n in walk_local(w.node) if isinstance(n, ast.Call) and F.is_name(n.func, 'open')]
@@ -321,7 +322,12 @@ def r5_cli(ctx):
         sufs = {n.args[0].value for n in walk_local(f.node) if isinstance(n, ast.Call) and isinstance(n.func, ast.Attribute)
                 and n.func.attr == 'with_suffix' and n.args and isinstance(n.args[0], ast.Constant)}
         ctx.check(sufs == {suf}, 'R5', f.loc, f.qualname, f'cli-suffix:{conv}', f'outputs get the suffix {suf}', f'suffixes {sorted(sufs)}')
-        ps = [ast.literal_eval(n.args[1]) for n in walk_local(f.node) if isinstance(n, ast.Call) and F.is_name(n.func, 'find_files') and len(n.args) > 1]
+        env_ = G.single_assignments(f.node)
+        ps = []
+        for n in walk_local(f.node):
+            if isinstance(n, ast.Call) and F.is_name(n.func, 'find_files') and len(n.args) > 1:
+                ok_, v_ = ctx.ce.try_eval(G.substitute(n.args[1], env_), f.module)
+                ps.append(list(v_) if ok_ and isinstance(v_, (list, tuple)) else src(n.args[1]))
         ctx.check(ps == [pats], 'R5', f.loc, f.qualname, f'cli-patterns:{conv}', f'inputs match {pats}', f'patterns {ps}')
     ff = ctx.prog.func(f'{N.MAIN}.find_files')
     d, pats, rec = ff.params[:3]
